@@ -13,6 +13,7 @@ K_HPMCAP, K_HPMSTAT, K_SELFTEST = 41, 42, 43
 K_PORT, K_SIGCLASS, K_PWRCHST, K_PWRCHCTL, K_PMGLOBAL, K_HEARTBEAT, K_AUTHCAP, K_ROLLBACK, K_ROLLBACKREQ = \
     50, 51, 52, 53, 54, 55, 56, 57, 58
 K_DCMICAP, K_DCMIPWR, K_I2CMEM, K_I2CW = 60, 61, 62, 63
+K_COMPPROP = 44
 
 
 def default(k):
@@ -69,6 +70,8 @@ def default(k):
         return [0, 0]
     if kind == K_SELFTEST:
         return [0x55, 0]
+    if kind == K_COMPPROP:
+        return {0: [0x0e], 1: [1, 0x23, 0, 0, 0, 1], 2: [66, 79, 79, 84] + [0] * 8, 3: [1, 0x22, 0, 0, 0, 0]}.get(b, [1, 0x24, 0, 0, 0, 2])
     if kind == K_SIGCLASS:
         return [0]
     if kind == K_PWRCHST:
@@ -395,6 +398,14 @@ class RefBmc:
             return ok([0] + get(K_HPMSTAT, 0, 0))
         if cmd == 0x36:
             return ok([0] + get(K_SELFTEST, 0, 0))
+        if cmd == 0x2f:
+            if len(d) < 3:
+                return [0xc7]
+            if d[1] > 7:
+                return [0x82]
+            if d[2] > 4:
+                return [0x83]
+            return ok([0] + get(K_COMPPROP, d[1], d[2]))
         if cmd == 0x37:
             return ok([0] + get(K_ROLLBACK, 0, 0))
         if cmd == 0x38:
